@@ -202,6 +202,10 @@ func newCmd_SplitCar() *cli.Command {
 					if err != nil {
 						return fmt.Errorf("failed to replace root: %w", err)
 					}
+					// the file also holds the subset node written above: record the size it really has
+					if st, err := os.Stat(filepath.Join(outputDir, cf.name)); err == nil {
+						carFiles[len(carFiles)-1].fileSize = uint64(st.Size())
+					}
 
 				}
 
@@ -351,6 +355,10 @@ func newCmd_SplitCar() *cli.Command {
 			err = carv2.ReplaceRootsInFile(filepath.Join(outputDir, cf.name), []cid.Cid{cf.payloadCid})
 			if err != nil {
 				return fmt.Errorf("failed to replace root: %w", err)
+			}
+			// the file also holds the subset and epoch nodes written above: record the size it really has
+			if st, err := os.Stat(filepath.Join(outputDir, cf.name)); err == nil {
+				carFiles[len(carFiles)-1].fileSize = uint64(st.Size())
 			}
 
 			f, err := os.Create(meta)
